@@ -1,0 +1,121 @@
+//go:build verif
+
+package leveldbstorage
+
+import (
+	"sync"
+
+	"github.com/pkg/errors"
+	"github.com/syndtr/goleveldb/leveldb"
+)
+
+// Verification hook H3 (build tag "verif" only): a fail-stop fault point at
+// every write boundary of Storage (Put, Delete, Batch) and a log of the
+// boundaries. After the armed budget of successful writes is used up, every
+// later write of the armed storage fails and nothing reaches leveldb, which is
+// how a process that stopped at that boundary looks to the storage.
+
+var ErrVerifFault = errors.New("verif: injected write fault, process stopped at this write boundary")
+
+type VerifWriteEvent struct {
+	Op     string
+	Keys   [][]byte // keys written(or deleted) by this write
+	Delete []bool   // per key, true if the record is a deletion
+	Seq    int
+	Failed bool
+}
+
+type verifBatchKeys struct {
+	keys [][]byte
+	dels []bool
+}
+
+func (r *verifBatchKeys) Put(key, _ []byte) {
+	r.keys = append(r.keys, append([]byte{}, key...))
+	r.dels = append(r.dels, false)
+}
+
+func (r *verifBatchKeys) Delete(key []byte) {
+	r.keys = append(r.keys, append([]byte{}, key...))
+	r.dels = append(r.dels, true)
+}
+
+var verifFault struct {
+	st     *Storage
+	log    []VerifWriteEvent
+	budget int
+	count  int
+	sync.Mutex
+	armed bool
+}
+
+// VerifFaultArm arms the fault point for st (nil means every storage).
+// budget < 0 only logs; budget >= 0 lets that many writes through and fails
+// every later one.
+func VerifFaultArm(st *Storage, budget int) {
+	verifFault.Lock()
+	defer verifFault.Unlock()
+
+	verifFault.st = st
+	verifFault.budget = budget
+	verifFault.count = 0
+	verifFault.log = nil
+	verifFault.armed = true
+}
+
+// VerifFaultReset disarms the fault point and returns the log.
+func VerifFaultReset() []VerifWriteEvent {
+	verifFault.Lock()
+	defer verifFault.Unlock()
+
+	l := verifFault.log
+	verifFault.st = nil
+	verifFault.log = nil
+	verifFault.armed = false
+
+	return l
+}
+
+func VerifFaultLog() []VerifWriteEvent {
+	verifFault.Lock()
+	defer verifFault.Unlock()
+
+	l := make([]VerifWriteEvent, len(verifFault.log))
+	copy(l, verifFault.log)
+
+	return l
+}
+
+func verifFaultPoint(st *Storage, op string, key []byte, batch *leveldb.Batch) error {
+	verifFault.Lock()
+	defer verifFault.Unlock()
+
+	if !verifFault.armed || (verifFault.st != nil && verifFault.st != st) {
+		return nil
+	}
+
+	ev := VerifWriteEvent{Op: op, Seq: verifFault.count}
+
+	switch {
+	case batch != nil:
+		var r verifBatchKeys
+		_ = batch.Replay(&r)
+		ev.Keys = r.keys
+		ev.Delete = r.dels
+	default:
+		ev.Keys = [][]byte{append([]byte{}, key...)}
+		ev.Delete = []bool{op == "delete"}
+	}
+
+	if verifFault.budget >= 0 && verifFault.count >= verifFault.budget {
+		ev.Failed = true
+		verifFault.log = append(verifFault.log, ev)
+
+		return ErrVerifFault
+	}
+
+	verifFault.count++
+	verifFault.log = append(verifFault.log, ev)
+
+	return nil
+}
